@@ -85,6 +85,28 @@ package parser
 //@   at advance#* assert[C10] tighter: precOf(p.curr.Type) > prec
 //@   at advance2#* assert[C10] tighter: precOf(p.curr.Type) > prec
 //@   at expression#* assert[C10] leftassoc: arg1 == precOf(tokT(ppos - 1))
+// C01: a projection's right-hand side extends over the selectors that follow (every selector token binds tighter than the
+// binding power handed to parser.projection); the slice sites (#5) re-project each following selector instead
+//@   at projection#1 assert[C01 C17] extends.dot: precOf(const("lexer.DotToken")) > arg1
+//@   at projection#1 assert[C01 C17] extends.bracket: precOf(const("lexer.OpenSqBraceToken")) > arg1
+//@   at projection#1 assert[C01 C17] extends.filter: precOf(const("lexer.FilterToken")) > arg1
+//@   at projection#1 assert[C01 C17] extends.objwild: precOf(const("lexer.ObjectWildcardToken")) > arg1
+//@   at projection#1 assert[C01 C17] extends.arraywild: precOf(const("lexer.ArrayWildcardToken")) > arg1
+//@   at projection#2 assert[C01 C17] extends.dot: precOf(const("lexer.DotToken")) > arg1
+//@   at projection#2 assert[C01 C17] extends.bracket: precOf(const("lexer.OpenSqBraceToken")) > arg1
+//@   at projection#2 assert[C01 C17] extends.filter: precOf(const("lexer.FilterToken")) > arg1
+//@   at projection#2 assert[C01 C17] extends.objwild: precOf(const("lexer.ObjectWildcardToken")) > arg1
+//@   at projection#2 assert[C01 C17] extends.arraywild: precOf(const("lexer.ArrayWildcardToken")) > arg1
+//@   at projection#3 assert[C01 C17] extends.dot: precOf(const("lexer.DotToken")) > arg1
+//@   at projection#3 assert[C01 C17] extends.bracket: precOf(const("lexer.OpenSqBraceToken")) > arg1
+//@   at projection#3 assert[C01 C17] extends.filter: precOf(const("lexer.FilterToken")) > arg1
+//@   at projection#3 assert[C01 C17] extends.objwild: precOf(const("lexer.ObjectWildcardToken")) > arg1
+//@   at projection#3 assert[C01 C17] extends.arraywild: precOf(const("lexer.ArrayWildcardToken")) > arg1
+//@   at projection#4 assert[C01 C17] extends.dot: precOf(const("lexer.DotToken")) > arg1
+//@   at projection#4 assert[C01 C17] extends.bracket: precOf(const("lexer.OpenSqBraceToken")) > arg1
+//@   at projection#4 assert[C01 C17] extends.filter: precOf(const("lexer.FilterToken")) > arg1
+//@   at projection#4 assert[C01 C17] extends.objwild: precOf(const("lexer.ObjectWildcardToken")) > arg1
+//@   at projection#4 assert[C01 C17] extends.arraywild: precOf(const("lexer.ArrayWildcardToken")) > arg1
 //@   loop 1
 //@     invariant p.curr.Type == tokT(ppos) && p.next.Type == tokT(ppos + 1)
 //@     invariant tokOK(p.curr.Type, p.curr.Value) && tokOK(p.next.Type, p.next.Value)
@@ -102,6 +124,26 @@ package parser
 //@   ensures pi: result1 == nil ==> p.curr.Type == tokT(ppos) && p.next.Type == tokT(ppos + 1) && tokOK(p.curr.Type, p.curr.Value) && tokOK(p.next.Type, p.next.Value) && 0 <= p.lex.position && p.lex.position <= len(p.lex.expression)
 //@   ensures[C09] progress: result1 == nil ==> ppos > old(ppos) && result0 != nil
 //@   at expression#* assert[C10] prefix: arg1 == 1 || arg1 >= precOf(const("lexer.MultiplyToken"))
+//@   at projection#1 assert[C01 C17] extends.dot: precOf(const("lexer.DotToken")) > arg1
+//@   at projection#1 assert[C01 C17] extends.bracket: precOf(const("lexer.OpenSqBraceToken")) > arg1
+//@   at projection#1 assert[C01 C17] extends.filter: precOf(const("lexer.FilterToken")) > arg1
+//@   at projection#1 assert[C01 C17] extends.objwild: precOf(const("lexer.ObjectWildcardToken")) > arg1
+//@   at projection#1 assert[C01 C17] extends.arraywild: precOf(const("lexer.ArrayWildcardToken")) > arg1
+//@   at projection#2 assert[C01 C17] extends.dot: precOf(const("lexer.DotToken")) > arg1
+//@   at projection#2 assert[C01 C17] extends.bracket: precOf(const("lexer.OpenSqBraceToken")) > arg1
+//@   at projection#2 assert[C01 C17] extends.filter: precOf(const("lexer.FilterToken")) > arg1
+//@   at projection#2 assert[C01 C17] extends.objwild: precOf(const("lexer.ObjectWildcardToken")) > arg1
+//@   at projection#2 assert[C01 C17] extends.arraywild: precOf(const("lexer.ArrayWildcardToken")) > arg1
+//@   at projection#3 assert[C01 C17] extends.dot: precOf(const("lexer.DotToken")) > arg1
+//@   at projection#3 assert[C01 C17] extends.bracket: precOf(const("lexer.OpenSqBraceToken")) > arg1
+//@   at projection#3 assert[C01 C17] extends.filter: precOf(const("lexer.FilterToken")) > arg1
+//@   at projection#3 assert[C01 C17] extends.objwild: precOf(const("lexer.ObjectWildcardToken")) > arg1
+//@   at projection#3 assert[C01 C17] extends.arraywild: precOf(const("lexer.ArrayWildcardToken")) > arg1
+//@   at projection#4 assert[C01 C17] extends.dot: precOf(const("lexer.DotToken")) > arg1
+//@   at projection#4 assert[C01 C17] extends.bracket: precOf(const("lexer.OpenSqBraceToken")) > arg1
+//@   at projection#4 assert[C01 C17] extends.filter: precOf(const("lexer.FilterToken")) > arg1
+//@   at projection#4 assert[C01 C17] extends.objwild: precOf(const("lexer.ObjectWildcardToken")) > arg1
+//@   at projection#4 assert[C01 C17] extends.arraywild: precOf(const("lexer.ArrayWildcardToken")) > arg1
 //@   ensures[C17 C01] paren.ends: old(p.curr.Type) == const("lexer.OpenParenToken") && result1 == nil ==> !isProj(result0)
 
 //@ func parser.projection
@@ -112,7 +154,7 @@ package parser
 //@   ensures pi: result1 == nil ==> p.curr.Type == tokT(ppos) && p.next.Type == tokT(ppos + 1) && tokOK(p.curr.Type, p.curr.Value) && tokOK(p.next.Type, p.next.Value) && 0 <= p.lex.position && p.lex.position <= len(p.lex.expression)
 //@   ensures[C09] progress: result1 == nil && result0 != nil ==> ppos > old(ppos)
 //@   ensures none: result1 == nil && result0 == nil ==> ppos == old(ppos) && toks() == old(toks())
-//@   ensures[C01 C17] extends: result1 == nil ==> !selectorTok(tokT(ppos))
+//@   ensures[C01 C17] rhs.absent: result1 == nil && result0 == nil ==> !selectorTok(tokT(ppos))
 //@   loop 1
 //@     invariant p.curr.Type == tokT(ppos) && p.next.Type == tokT(ppos + 1) && tokOK(p.curr.Type, p.curr.Value) && tokOK(p.next.Type, p.next.Value) && 0 <= p.lex.position && p.lex.position <= len(p.lex.expression) && ppos > old(ppos) && newPrec == precOf(p.curr.Type) && node != nil
 //@     invariant[C04 C01 C17] linear: pendingOnly(node)
